@@ -216,6 +216,14 @@ def _count_rule(res, num, f, fa, puts, maxid):
                     d = "the count is not a counter (0, then + 1)"
                 else:
                     inc = [(pb, k) for pb, k in adds if pb != "init"]
+                    flags = [intervals.fresh_bit_flag(k) for pb, k in inc]
+                    if inc and all(fl is not None for fl in flags):
+                        # counter += u8::from(mask & bit == 0); mask |= bit;  - the flag is 1 exactly when the bit is new, the OR is unconditional
+                        okf = all(fl[0] is M for fl in flags) and sorted(pb for pb, k in inc) == sorted(pb for pb, k in ors) \
+                            and all(any(pb2 == pb and dlt is fl[1] for pb2, dlt in ors) for (pb, k), fl in zip(inc, flags)) and any(pb == "init" for pb, k in adds)
+                        res.ob("Q-cnt", "%s | the satellite count written = number of satellites in the mask (popcount, or + 1 exactly where a new mask bit is set)" % num,
+                               okf, "counter += (bit & mask == 0) as integer, followed by mask |= bit at the same site(s): %s" % okf, f.loc)
+                        return
                     okk = all(is_const(k) and const_val(k) == 1 for pb, k in inc) and any(pb == "init" for pb, k in adds)
                     same = sorted(pb for pb, k in inc) == sorted(pb for pb, k in ors) and len(inc) >= 1
                     fresh = True
